@@ -267,6 +267,32 @@ theorem pixel_jitter_equal_convolution_all_shapes (img : Arr ℝ) (m n : ℕ) (h
 
 example : ∃ m n : ℕ, m % 2 = 0 ∧ n % 2 = 0 ∧ 0 < m ∧ m ≠ n := ⟨4, 6, rfl, rfl, by norm_num, by norm_num⟩
 
+/-- **convolution theorem: the Fourier form is the spatial circular convolution.** `conv img K = ifft2(fft2(img)·K)` — the object
+the "equals the convolution" theorems speak about — is `Σ_a Σ_b img[a,b]·h[(i−a) mod m, (j−b) mod n]` with the point-spread
+function `h = ifft2(K)`, for every shape and every real transfer function (`np.fft.fft2/ifft2` as the plain DFT pair). -/
+theorem conv_is_circular_convolution (img k : Arr ℝ) (m n : ℕ) (hm : img.s0 = m) (hn : img.s1 = n) (hkm : k.s0 = m) (hkn : k.s1 = n)
+    (hm0 : 0 < m) (hn0 : 0 < n) (i j : ℤ) :
+    (conv img k).get i j = ∑ a ∈ range m, ∑ b ∈ range n, (img.get a b : ℂ) *
+      (ifft2 (R := ℝ) (toCx (K := ℂ) k)).get ((i - a) % m) ((j - b) % n) :=
+  conv_eq_circular_convolution img k m n hm hn hkm hkn hm0 hn0 i j
+
+/-- **smear on even axes: the deviation is bounded by the unpaired Nyquist samples.** Split the directional sinc into its
+Hermitian (even) part `K_H` and its odd part `K_N` under negation of the frequency indices. Then at every sample the
+un-normalised smear output differs from `|c_H|` — `c_H = conv img K_H` is real — by at most `(1/(mn))·Σ|fft2(img)|·|K_N|`, and
+`K_N` vanishes off the Nyquist row (`2u = m`) and Nyquist column (`2v = n`): on odd × odd images it is zero and the bound is 0;
+on even axes it is exactly the contribution of the unpaired Nyquist row/column the statement allows. -/
+theorem smear_even_axis_deviation (img : Arr ℝ) (m n : ℕ) (hm : img.s0 = m) (hn : img.s1 = n) (hm0 : 0 < m) (hn0 : 0 < n)
+    (dist ang ps os : ℝ) (i j : ℤ) :
+    (conv img (evenPart (smearKernel m n dist ang ps os) m n)).get i j
+      = (((conv img (evenPart (smearKernel m n dist ang ps os) m n)).get i j).re : ℂ) ∧
+    abs ((blurCore ℂ img (smearKernel m n dist ang ps os)).get i j
+        - abs ((conv img (evenPart (smearKernel m n dist ang ps os) m n)).get i j).re)
+      ≤ (∑ v ∈ range n, ∑ u ∈ range m, ‖(fft2 (R := ℝ) (toCx (K := ℂ) img)).get u v‖
+          * |(oddPart (smearKernel m n dist ang ps os) m n).get u v|) / ((m : ℝ) * n) ∧
+    (∀ u v : ℤ, 2 * (u % (m : ℤ)) ≠ m → 2 * (v % (n : ℤ)) ≠ n → (oddPart (smearKernel m n dist ang ps os) m n).get u v = 0) := by
+  have h := blur_deviation_le img (smearKernel m n dist ang ps os) m n hm hn hm0 hn0 i j
+  exact ⟨h.1, h.2, fun u v hu hv => smear_oddPart_support m n hm0 hn0 dist ang ps os u v hu hv⟩
+
 /-- **the blur does not depend on the size of the physical unit.** Expressing the extent and the pixel scale in any other unit
 (both multiplied by `k ≠ 0`: metres, nanometres, radians, milli-arcseconds) gives exactly the same output — in particular a
 multi-pixel jitter given in nano-scale units is not "close to zero". -/
